@@ -59,9 +59,10 @@ def run_engine_a_property(pid, tier, seed):
     if pid == "C01":
         # lemma: the run table every with-holes function trusts, with SYMBOLIC discriminants
         L1.engine_c(rep, 4 if tier == "quick" else 8, ht)
-    if pid in ("C03", "C07"):
+    if pid in ("C03", "C07", "C04"):
         # the table-index arithmetic with SYMBOLIC run layouts (all 12 reprs)
-        L1.engine_c2(rep, ["as_str_fn"] if pid == "C03" else ["range_fn"], 3 if tier == "quick" else 5, ht)
+        L1.engine_c2(rep, {"C03": ["as_str_fn"], "C07": ["range_fn"], "C04": ["from_str_fn", "from_str_trait"]}[pid],
+                     3 if tier == "quick" else 5, ht)
     return D.finish(rep, RULES[pid], COMMON_ASSUMPTIONS, COMMON_OUTSIDE)
 
 
